@@ -5,6 +5,7 @@ from __future__ import annotations
 import ast
 
 from gv import rules
+from gv.astutil import AnalysisError
 from gv.astutil import compare_parts
 from gv.astutil import const_value
 from gv.astutil import dotted
@@ -163,7 +164,31 @@ def check_backup_setup(ctx: Ctx) -> None:
     ctx.ob("12.3-load", con, ok, "the backup path used by the callback is the given file path", node=(path or [f])[0], stmt="backup path recorded")
 
 
+def check_reader_keeps_every_entry(ctx: Ctx) -> None:
+    """12.5: loading a backup stores EVERY entry of the file (an entry without scalar values, or without any
+    value, is still a point that was evaluated or seeded): no path of the loop skips the store."""
+    cls = next(iter(c for c in ctx.index.module(HD).classes.values() if "update_from_file" in c.methods), None)
+    if cls is None:
+        raise AnalysisError("update_from_file not found in algos/_hdf_database.py")
+    f = cls.methods["update_from_file"]
+    con = cname(HD, cls.qualname, "update_from_file")
+    cfg = cfg_of(f)
+    stores = [c for c in walk_body(f) if isinstance(c, ast.Call) and last_attr(c) == "store" and "database" in norm_stmt(c.func)]
+    loops = [lp for lp in stmts_of(f) if isinstance(lp, ast.For) and stores and stores[0] in list(ast.walk(lp))]
+    ok = len(stores) == 1 and len(loops) >= 1
+    esc = None
+    if ok:
+        lp = loops[-1]
+        head = cfg.node_of(lp)
+        start = cfg.branch[(head, True)]
+        sn = cfg.node_of(rules.enclosing_stmt(f, stores[0]))
+        esc = cfg.path(start, head, avoid={sn})
+        ok = esc is None and "range(len(" in norm_stmt(lp.iter)
+    ctx.ob("12.5-every-entry", con, bool(ok), "an iteration of the loading loop can end without storing the entry" + (f" ({cfg.describe_path(esc)})" if esc else "") + ": points evaluated before the crash are missing from the reloaded database and are re-executed", node=(stores or [f])[0], stmt="every entry of the file is stored")
+
+
 def run(ctx: Ctx) -> None:
+    check_reader_keeps_every_entry(ctx)
     check_backup_callback(ctx)
     store_protocol(ctx, "12.2", {"pending"})
     check_listeners(ctx)
@@ -185,6 +210,7 @@ def run(ctx: Ctx) -> None:
 
 # ---------------------------------------------------------------------------
 WITNESSES = [
+    {"name": "reader-skips-entries-without-scalars", "file": HD, "old": "                else:\n                    scalar_dict = {}\n                scalar_dict.update(names_to_arrays)", "new": "                else:\n                    continue\n                scalar_dict.update(names_to_arrays)", "expect": "12.5"},
     {"name": "backup-rewrites-file", "file": BS, "old": "self.save_optimization_history(self._opt_hist_backup_path, append=True)", "new": "self.save_optimization_history(self._opt_hist_backup_path, append=False)", "expect": "12.1"},
     {"name": "append-flag-dropped", "file": BS, "old": "optimization_problem.to_hdf(file_path=file_path, append=append)", "new": "optimization_problem.to_hdf(file_path=file_path)", "expect": "12.1"},
     {"name": "database-to_hdf-drops-append", "file": DB, "old": "            self, file_path, append, hdf_node_path=hdf_node_path\n        )", "new": "            self, file_path, False, hdf_node_path=hdf_node_path\n        )", "expect": "12.1"},
